@@ -188,6 +188,8 @@ static inline void NMap_insert(NMap *m, NPair p)
   else m->other = p;
 }
 static inline void NMap_clear(NMap *m) { m->gpresent = 0; }
+/* std::map::count on the map of stored elements (not called by the unchanged code): exact at the ghost key, arbitrary elsewhere */
+static inline unsigned long NMap_count(NMap *m, IC4 k) { return ic4_equiv(k, g_X) ? (m->gpresent ? 1UL : 0UL) : (nondet_bool() ? 1UL : 0UL); }
 /* std::set<IndexCombination4>: n elements in iteration order, the ghost key at position gpos iff ghas */
 typedef struct ISet { long n; int ghas; long gpos; } ISet;
 typedef struct ISetIt { ISet *s; long pos; } ISetIt;
